@@ -441,17 +441,24 @@ Definition delta_decode (ds : list N) : list N :=
   | x :: r => x :: delta_dec_from x r
   end.
 
-Fixpoint id_chain (prev : N) (v : list N) : bool :=
+(* a value the f32 -> u64 -> f32 cast of the id path gives back: a non-negative integer below 2^64 *)
+Definition id_exact (b : N) : bool := negb (f32_sign b) && negb (f32_has_fract b) && (f32_exp b <? 191).
+(* `guard` = looks_like_id_list admits only id_exact values (repaired code); without it: by name
+   unconditionally, by shape every non-negative integer-valued non-decreasing vector *)
+Definition id_elem_ok (guard : bool) (x : N) : bool :=
+  if guard then id_exact x else negb (f32_neg x) && negb (f32_has_fract x).
+Fixpoint id_chain (guard : bool) (prev : N) (v : list N) : bool :=
   match v with
   | [] => true
-  | x :: r => negb (f32_ltb x prev) && negb (f32_neg x) && negb (f32_has_fract x) && id_chain x r
+  | x :: r => negb (f32_ltb x prev) && id_elem_ok guard x && id_chain guard x r
   end.
-Definition looks_like_id_list (v : list N) (fname : str) : bool :=
-  if str_eqb fname gen_id_name || ends_with gen_id_suffix fname then true
+Definition looks_like_id_list_with (guard : bool) (v : list N) (fname : str) : bool :=
+  if str_eqb fname gen_id_name || ends_with gen_id_suffix fname then (if guard then forallb id_exact v else true)
   else match v with
-       | x :: _ :: _ => negb (f32_neg x) && negb (f32_has_fract x) && id_chain x (tl v)
+       | x :: _ :: _ => id_elem_ok guard x && id_chain guard x (tl v)
        | _ => false
        end.
+Definition looks_like_id_list := looks_like_id_list_with gen_id_exact_guard.
 
 (* decimal digits of a length *)
 Fixpoint dec_digits (fuel : nat) (n : N) (acc : str) : str :=
@@ -466,11 +473,12 @@ Definition sparse_dense (dim : N) (pos vals : list N) : list N :=
   scatter (repeat 0 (N.to_nat dim)) (combine (map N.to_nat pos) vals).
 
 (* compress_vector with tensor_mode = None (TT quantisation is outside this model) *)
-Definition compress_vector (delta : bool) (v : list N) (fname : str) : cval :=
-  if delta && looks_like_id_list v fname then CIdList (delta_encode (map f32_to_u64 v))
+Definition compress_vector_with (guard delta : bool) (v : list N) (fname : str) : cval :=
+  if delta && looks_like_id_list_with guard v fname then CIdList (delta_encode (map f32_to_u64 v))
   else CVecRaw v.
+Definition compress_vector := compress_vector_with gen_id_exact_guard.
 
-Definition cmap (delta : bool) (fname : str) (v : tval) : cval :=
+Definition cmap_with (guard delta : bool) (fname : str) (v : tval) : cval :=
   match v with
   | TScalar SNull => CScalar CNull
   | TScalar (SBool b) => CScalar (CBool b)
@@ -481,11 +489,12 @@ Definition cmap (delta : bool) (fname : str) (v : tval) : cval :=
       if gen_bytes_as_len_string
       then CScalar (CStr (s_bytes_colon ++ dec_digits 25 (N.of_nat (length bs)) []))
       else CScalar (CStr bs)   (* placeholder for an unknown future mapping: forces a mismatch *)
-  | TVec v => compress_vector delta v fname
-  | TSparse d p vs => compress_vector delta (sparse_dense d p vs) fname
+  | TVec v => compress_vector_with guard delta v fname
+  | TSparse d p vs => compress_vector_with guard delta (sparse_dense d p vs) fname
   | TPtr p => CPtr p
   | TPtrs ps => CPtrs ps
   end.
+Definition cmap := cmap_with gen_id_exact_guard.
 Definition cunmap (c : cval) : tval :=
   match c with
   | CScalar CNull => TScalar SNull
@@ -530,12 +539,14 @@ Definition q_equal (x y : tval) : bool :=
 Definition cast_ok (b : N) : bool := elem_close b (u64_to_f32 (f32_to_u64 b)).
 Definition is_bytes_scalar (v : tval) : bool :=
   match v with TScalar (SBytes _) => true | _ => false end.
-Definition id_path_lossy (delta : bool) (fname : str) (v : tval) : bool :=
+Definition id_path_lossy_with (guard delta : bool) (fname : str) (v : tval) : bool :=
   match dense_of v with
-  | Some d => delta && looks_like_id_list d fname && negb (forallb cast_ok d)
+  | Some d => delta && looks_like_id_list_with guard d fname && negb (forallb cast_ok d)
   | None => false
   end.
+Definition id_path_lossy := id_path_lossy_with gen_id_exact_guard.
 (* the two known-finding classes of the quantising format *)
-Definition quant_known (delta : bool) (fname : str) (v : tval) : bool :=
-  is_bytes_scalar v || id_path_lossy delta fname v.
+Definition quant_known_with (guard delta : bool) (fname : str) (v : tval) : bool :=
+  is_bytes_scalar v || id_path_lossy_with guard delta fname v.
+Definition quant_known := quant_known_with gen_id_exact_guard.
 
